@@ -260,6 +260,7 @@ type decEncoderField struct {
 	ftype       fieldType
 	name        string
 	arrayLength byte
+	isArray     bool
 	index       int
 	isExtension bool
 }
@@ -300,11 +301,13 @@ func (rw *ReadWriter) Initialize() error {
 	for i := 0; i < rw.elemType.NumField(); i++ {
 		field := rw.elemType.Field(i)
 		arrayLength := byte(0)
+		isArray := false
 		goType := field.Type
 
 		// array
 		if goType.Kind() == reflect.Array {
 			arrayLength = byte(goType.Len())
+			isArray = true
 			goType = goType.Elem()
 		}
 
@@ -349,6 +352,7 @@ func (rw *ReadWriter) Initialize() error {
 				if len(tagLen) == 0 { // char
 					arrayLength = 1
 				} else { // string
+					isArray = true
 					slen, err := strconv.Atoi(tagLen)
 					if err != nil {
 						return fmt.Errorf("string has invalid length: %v", tagLen)
@@ -379,6 +383,7 @@ func (rw *ReadWriter) Initialize() error {
 				return fieldGoToDef(field.Name)
 			}(),
 			arrayLength: arrayLength,
+			isArray:     isArray,
 			index:       i,
 			isExtension: isExtension,
 		}
@@ -417,7 +422,8 @@ func (rw *ReadWriter) Initialize() error {
 			h.Write([]byte(fieldTypeString[f.ftype] + " "))
 			h.Write([]byte(f.name + " "))
 
-			if f.arrayLength > 0 {
+			// a single char is not an array: its length is not part of the CRC extra
+			if f.isArray {
 				h.Write([]byte{f.arrayLength})
 			}
 		}
